@@ -231,6 +231,57 @@ fn malformed_strings(ctx: &Ctx) {
     }
 }
 
+
+/// Strings of OTHER lengths whose missing or extra bytes are zeros: a conforming blob that ends in one or two zero
+/// bytes, cut by exactly those bytes (83 / 82 bytes), and any conforming blob extended by zero bytes (85 .. 88 bytes).
+/// A decoder that copies into a zero-filled fixed buffer, or ignores trailing bytes, would take them for the key.
+fn zero_padded_lengths(ctx: &Ctx) {
+    let mut rng = Rng::fork(ctx.seed, "C15-zero-tail");
+    let pw = b"zero tail".to_vec();
+    for zeros in ctx.tier.pick(vec![1usize, 2], vec![1usize, 2, 3]) {
+        for round in 0..ctx.tier.pick(2, 6) {
+            let salt = rng.arr32();
+            let mut r2 = Rng::fork(ctx.seed, &format!("C15-zero-tail-{}-{}", zeros, round));
+            let (good, sk) = match refspec::lock_sk_with_zero_tail(&pw, &salt, zeros, || r2.arr32()) {
+                Some(x) => x,
+                None => {
+                    ctx.inconclusive("C15: no blob with a zero tail found");
+                    continue;
+                }
+            };
+            let blob = unb64(&good).unwrap();
+            // control: the full string is a conforming key
+            ctx.eval();
+            if real_unlock(&good, &pw) != Ok(Ok(sk)) {
+                ctx.violation("C15:conforming-key-with-a-zero-tail-does-not-unlock", json!({"locked": good, "password": hex(&pw)}));
+                continue;
+            }
+            let mut variants: Vec<(String, Vec<u8>)> = Vec::new();
+            for cut in 1..=zeros {
+                variants.push((format!("{} trailing zero byte(s) cut off ({} bytes)", cut, 84 - cut), blob[..84 - cut].to_vec()));
+            }
+            for ext in 1..=4usize {
+                let mut b = blob.clone();
+                b.resize(84 + ext, 0);
+                variants.push((format!("{} zero byte(s) appended ({} bytes)", ext, 84 + ext), b));
+            }
+            for (what, b) in variants {
+                ctx.eval();
+                let s = b64(&b);
+                let case = || json!({"class": what, "string": s, "conforming_string": good, "password": hex(&pw)});
+                match real_unlock(&s, &pw) {
+                    Err(p) => ctx.violation(&format!("C15:unlock:panic:{}", panic_site(&p)), case()),
+                    Ok(Ok(_)) => ctx.violation("C15:malformed-string-unlocks:blob-of-another-length-that-differs-only-by-zero-bytes", case()),
+                    Ok(Err(_)) => {
+                        ctx.seen("blob of another length differing only by zero bytes -> error");
+                        ctx.distinct(&format!("zerotail|{}|{}|{}", zeros, round, what));
+                    }
+                }
+            }
+        }
+    }
+}
+
 pub fn run(ctx: &Ctx) {
     ctx.rule(
         "the CLI's real lock/unlock code (compiled from /repo/src/cli/src/keyring.rs) against the documented format built on OpenSSL: lock output string-equal to the \
@@ -243,6 +294,7 @@ pub fn run(ctx: &Ctx) {
     bit_flips(ctx);
     wrong_pw(ctx);
     malformed_strings(ctx);
+    zero_padded_lengths(ctx);
     crate::c15cli::cli_lanes(ctx);
     ctx.require("cli: near-miss password does not unlock", 20);
     ctx.require("cli: keyring key does not unlock for encrypt/decrypt under another password", 10);
